@@ -889,7 +889,7 @@ class Project(MessageHandler):
         except AttributeError:
             diff_seconds = float(date - self.attributes["start"])
 
-        idx: int = int(diff_seconds / self.attributes["scheduleGranularity"])
+        idx: int = math.floor(diff_seconds / self.attributes["scheduleGranularity"])
         return idx
 
     def idxToDate(self, idx: int) -> Optional[Any]:
